@@ -113,6 +113,10 @@ pub struct Case {
     pub non_table: Option<V>,
     /// declare callbacks with fewer parameters than the library pushes (as the repo's tests do)
     pub short_params: bool,
+    /// the program defines root functions named like the library's own helpers (decoys that would
+    /// change every result if the library bound to them); the compiler may refuse such a program
+    #[serde(default)]
+    pub decoys: bool,
 }
 
 fn c(b: CardBody) -> Card {
@@ -349,7 +353,8 @@ fn gen_case(rng: &mut Rng) -> Case {
                 if rng.chance(1, 2) {
                     V::Int(rng.range(-3, 3))
                 } else {
-                    V::Real(*rng.pick(&[-2.5f64, -1.0, 0.0, 0.5, 1.0, 2.0, 2.5]))
+                    // zeros of both signs are equal: ties
+                    V::Real(*rng.pick(&[-2.5f64, -1.0, 0.0, -0.0, 0.5, 1.0, 2.0, 2.5]))
                 }
             }
             2 => {
@@ -407,7 +412,7 @@ fn gen_case(rng: &mut Rng) -> Case {
         None
     };
     // Neg on reals is fine, on strings not comparable: keep Neg for numeric values only
-    Case { fun, entries, as_array, cb, keyfn, non_table, short_params: rng.chance(1, 5) && n <= 6 }
+    Case { fun, entries, as_array, cb, keyfn, non_table, short_params: rng.chance(1, 5) && n <= 6, decoys: rng.chance(1, 12) }
 }
 
 fn build(case: &Case) -> Module {
@@ -452,6 +457,14 @@ fn build(case: &Case) -> Module {
     main.cards.push(Card::set_global_var("g_done", Card::scalar_int(1)));
     let mut m = Module::default();
     m.functions.push(("main".into(), main));
+    if case.decoys {
+        for name in ["row_to_value", "sorted_by_key", "min_by_key", "filter"] {
+            m.functions.push((
+                name.into(),
+                Function::default().with_arg("a").with_arg("b").with_card(Card::return_card(c(CardBody::Sub(bin(Card::scalar_int(0), Card::read_var("b")))))),
+            ));
+        }
+    }
     m
 }
 
@@ -608,8 +621,11 @@ fn run_case_under(p: &CaoCompiledProgram, s: &Schedule) -> RunOut {
 
 fn violations_for(case: &Case, s: &Schedule, budget_fault: bool) -> Vec<(Json, String)> {
     let m = build(case);
-    let Compiled::Ok(p) = compile_module(&m) else {
-        return vec![(json!({"aspect": "harness-program-does-not-compile"}), "generated program does not compile".into())];
+    let p = match compile_module(&m) {
+        Compiled::Ok(p) => p,
+        // a program with decoys may be refused (duplicate name): nothing is computed wrongly then
+        Compiled::Err(_) if case.decoys => return vec![],
+        _ => return vec![(json!({"aspect": "harness-program-does-not-compile"}), "generated program does not compile".into())],
     };
     let out = run_case_under(&p, s);
     judge(case, &out, budget_fault, expected_error(s))
@@ -668,9 +684,16 @@ impl Check for C09 {
         }
         ctx.count(&format!("reach:fun:{:?}", case.fun), 1);
         let m = build(&case);
-        let Compiled::Ok(p) = compile_module(&m) else {
-            ctx.violation(json!({"aspect": "harness-program-does-not-compile"}), "generated program does not compile", json!({"case": cv}));
-            return;
+        let p = match compile_module(&m) {
+            Compiled::Ok(p) => p,
+            Compiled::Err(_) if case.decoys => {
+                ctx.count("decoy_programs_refused_by_the_compiler", 1);
+                return;
+            }
+            _ => {
+                ctx.violation(json!({"aspect": "harness-program-does-not-compile"}), "generated program does not compile", json!({"case": cv}));
+                return;
+            }
         };
         let mut base = Schedule::new(GcPlan::Never, true);
         base.knobs.budget = 200_000;
